@@ -115,6 +115,41 @@ static Result check_motion(const J &c)
   for (auto &f : root.at("features").a) if (f.has("segments") && f.at("coordinates").size() > 2) has_curved = true;
   if (has_curved) r.classes.push_back("curved trench");
   if (has_ridge) r.classes.push_back("ridge-dependent model");
+  // the 2D interface: the cross section moves with the world, so a 2D point (x,z) keeps its meaning
+  if (root.has("cross section"))
+    {
+      const J &cs = root.at("cross section");
+      const double ax = cs[0][0].num(), ay = cs[0][1].num(), bx = cs[1][0].num(), by = cs[1][1].num();
+      const double un = std::sqrt((bx - ax) * (bx - ax) + (by - ay) * (by - ay));
+      for (const auto &q : c.at("queries").a)
+        {
+          const double s = ((q.at("nat")[0].num() - ax) * (bx - ax) + (q.at("nat")[1].num() - ay) * (by - ay)) / un;
+          const double depth = q.at("depth").num();
+          std::array<double, 2> p2d;
+          if (fr.sph) { const double rr = fr.R - depth; p2d = {{rr * std::cos(s * DEG), rr * std::sin(s * DEG)}}; }
+          else p2d = {{s, fr.H - depth}};
+          Ans a, b;
+          const PropList l2 = {{{1, 0, 0}}, {{2, 0, 0}}, {{2, 1, 0}}, {{2, 2, 0}}, {{4, 0, 0}}};
+          try { a.v = A->properties(p2d, depth, l2); } catch (const std::exception &) { a.threw = true; }
+          try { b.v = B->properties(p2d, depth, l2); } catch (const std::exception &) { b.threw = true; }
+          if (!a.threw) { a.tag = a.v.back() < 0 ? "<none>" : A->feature_tags[static_cast<size_t>(a.v.back())]; a.v.pop_back(); }
+          if (!b.threw) { b.tag = b.v.back() < 0 ? "<none>" : B->feature_tags[static_cast<size_t>(b.v.back())]; b.v.pop_back(); }
+          r.inner++;
+          if (same(a, b)) continue;
+          // boundary-robust: the original world's 2D answer must be stable around the point
+          bool ambiguous = false;
+          for (int k = 0; k < 4 && !ambiguous; ++k)
+            {
+              std::array<double, 2> pp = p2d;
+              pp[static_cast<size_t>(k / 2)] += (k % 2 ? 0.02 : -0.02);
+              Ans a2;
+              try { a2.v = A->properties(pp, depth, l2); a2.tag = a2.v.back() < 0 ? "<none>" : A->feature_tags[static_cast<size_t>(a2.v.back())]; a2.v.pop_back(); } catch (const std::exception &) { a2.threw = true; }
+              if (!same(a, a2)) ambiguous = true;
+            }
+          if (ambiguous) { r.classes.push_back("boundary-ambiguous(skipped)"); continue; }
+          return Result::fail(fr.sph ? "sph-2d-interface" : "cart-2d-interface", "the 2D interface (cross section moved with the world) answers differently after the motion at (x,z)=(" + fmt(p2d[0]) + "," + fmt(p2d[1]) + ") depth " + fmt(depth) + ": tag '" + a.tag + "' vs '" + b.tag + "'" + (a.v.empty() || b.v.empty() ? std::string() : ", T " + fmt(a.v[0]) + " vs " + fmt(b.v[0])));
+        }
+    }
   for (const auto &q : c.at("queries").a)
     {
       const J q2 = move_query(fr, q, m);
